@@ -212,3 +212,23 @@ Proof.
     rewrite (IH (mkst SepBoundary p' (rhdr s) (add_data (cur s) emit) (rfiles s) (ready s)) out rest); cbn [st pos cur rhdr rfiles];
       [reflexivity|reflexivity|eapply mdone_false; eauto|exact Hr|exact H].
 Qed.
+
+(* ---------- the content of one part, inside the parser: exact bytes, then the delimiter ---------- *)
+Lemma part_content_exact key lim : ~ In 13 key -> forall s x rest,
+  st s = SepBoundary -> pos s = 0%nat -> rest <> [] ->
+  ~ occurs (make_boundary key) x ->
+  feed (make_boundary key) lim s (x ++ make_boundary key ++ rest) =
+    let f := file_with_data (cur s) (rev x ++ f_rdata (cur s)) in
+    if size_ok lim f
+    then feed (make_boundary key) lim (mkst OneCrlfOrEof 0 (rhdr s) empty_file (f :: rfiles s) false) rest
+    else OStop 413.
+Proof.
+  intros Hk s x rest Hst Hp Hr Hno.
+  assert (make_boundary key <> []) as Hb by discriminate.
+  rewrite (feed_sep_mrun (make_boundary key) lim Hb (x ++ make_boundary key ++ rest) s
+             (rev (f_rdata (cur s)) ++ x) rest Hst).
+  - rewrite rev_app_distr, rev_involutive. reflexivity.
+  - rewrite Hp. cbn [make_boundary length]. lia.
+  - exact Hr.
+  - rewrite Hp. apply mrun_finds; assumption.
+Qed.
